@@ -737,6 +737,20 @@ func vfC01Judge(c *vfC01Case, st vfC01Step, o vfC01Obs, tamperedBefore bool) (st
 			tamperAt = len(g.Steps)
 		}
 	}
+	// A zone that is properly unsigned can be made to say anything, and the tamper script did make it say something else:
+	// when responses of an insecure zone earlier on the chain were altered, the chain computed from the honest world no
+	// longer describes what sdns was shown after that point - the alias that led into the bogus zone may never have
+	// arrived. Such a reply is judged for AD only.
+	if tampered {
+		for i := 0; i < len(g.Steps) && (bogusAt < 0 || i < bogusAt); i++ {
+			if s := g.Steps[i]; s.Zone != nil && !s.Secure && !s.Bogus && vfmodel.IsSubdomain(s.Zone.Apex, c.Tamper.Zone) {
+				if m.AuthenticatedData {
+					return "AD set on a reply that passes through an insecure zone whose responses were altered", cls
+				}
+				return "", append(cls, "altered-in-an-insecure-zone")
+			}
+		}
+	}
 	if bogusAt >= 0 {
 		return fmt.Sprintf("element %d of the answer comes from below a zone whose DS matches none of its keys, yet a CD=0 client got %s instead of SERVFAIL", bogusAt, dns.RcodeToString[m.Rcode]), cls
 	}
